@@ -164,3 +164,11 @@ def flatten_self_calls(repo: Repo, cls_name: str, stmts, depth: int = 2):
                 continue
         out.append(s)
     return out
+
+
+def pool_size(n: int, cap: int = 16) -> int:
+    """Workers for a pool of n tasks: at most `cap`, and at most SA_JOBS when set (the self-test runs many checks side by side and
+    sets it so that the pools do not oversubscribe the machine)."""
+    import os
+    lim = int(os.environ.get('SA_JOBS', cap))
+    return max(1, min(n, cap, lim))
